@@ -144,8 +144,7 @@ func (w *World) onDoneEvent(pol, l int) func(failsafe.ExecutionDoneEvent[R]) {
 
 func (w *World) delayFn(pol int, vals []D) failsafe.DelayFunc[R] {
 	return func(exec failsafe.ExecutionAttempt[R]) time.Duration {
-		n := w.delayCalls[pol]
-		w.delayCalls[pol]++
+		n := w.nextDelayCall(pol)
 		d := vals[n%len(vals)]
 		e := Event{Kind: EvDelayFn, Pos: pol, A: int64(d), B: int64(n)}
 		snapAttempt(&e, exec)
